@@ -60,10 +60,10 @@ T = {
          'Decides: read-receipt lock discipline; schedule_tasks co-updates enqueue/count/idle(min)/cache; echoed receipts equal cached ids; exactly one completion notice per task per role; handle_waiting applies the clamped correction and keeps the range assertion; task lists are split into complementary slices and the count reported upstream is that of the kept slice; the server books an UPDATE payload on the sending employee.',
          'Counter exactness under message crossings is value-level and NOT decided.'),
  'C16': ('static analysis: field completeness (FIELDS), pickle writer/reader shape agreement (REDUCE), eq/hash consistency (HASH), reserved-key registry (REG), prefix-equality (zip) clause, radix-blind component clause, hash memo clause, deep-branch aliasing (DEEP), pickle new-args agreement (NEWARGS), no self-comparison (TAUT)',
-         'Decides: copy/become/clear and the CouplingGraph copy-constructor carry every __init__ field; Circuit.__reduce__ and rebuild_circuit agree on state shape, gate indexing, dill flag and cycle grouping; every eq/hash pair in bqskit/ is consistent and order independent and no __eq__ stops at the shorter operand or compares a radix-blind component without the radixes; a memoised hash is computed from the same fields as the unmemoised one; become(deepcopy=True) deep-copies nested containers; classes with __new__(**kwargs) return (args, kwargs) to pickle from what __new__ kept.',
+         'Decides: copy/become/clear and the CouplingGraph copy-constructor carry every __init__ field; Circuit.__reduce__ and rebuild_circuit agree on state shape, gate indexing, dill flag and cycle grouping; every eq/hash pair in bqskit/ is consistent and order independent and no __eq__ stops at the shorter operand or compares a radix-blind component without the radixes; a memoised hash is computed from the same fields as the unmemoised one; become(deepcopy=True) deep-copies nested containers; classes with __new__(**kwargs) return (args, kwargs) to pickle from what __new__ kept; CachedClass keys its instances on the arguments bound to the constructor\'s signature with defaults applied (CACHEKEY), since cached gates are compared by identity.',
          'Equality of concrete round-tripped objects and dill coverage of closures are NOT decided.'),
  'C17': ('static analysis: registry agreement between QASM writer and reader tables and between grammar, evaluator and the OpenQASM 2 function set (REG), translator data-flow (FLOW), register-offset cursor discipline and index-space typing in the reader (REGOFF), declare-once in the writer (DECLONCE), bracket / spliced-number clauses of the expression evaluator (REG-rules), parameter cursor of custom gate definitions (CURSOR), ascending index inserts (INSERTORD), grammar hygiene read from the lark grammar as data (UNUSED, LITRULE, INLINEKW) and list-walk agreement with the grammar\'s recursion (LISTWALK)',
-         'Decides: every statically named gate spelling the writer can emit is in the reader table with the same arity and constructor (known gaps reported); grammar function terminals = evaluator table = OpenQASM 2 set; every semantic grammar rule has a visitor method; translators go through the QASM codec; every register-local qubit index reaches the circuit only shifted by its register\'s offset, computed by a cursor that starts at 0 and advances by each register\'s size; the writer declares each register once; the evaluator keeps the brackets of a parenthesised sub-expression and brackets every spliced argument; a custom gate definition hands each inner gate its own parameter slice; every grammar rule is referenced, every keyword literal is an OpenQASM 2 word, no keyword alternative hides inside a rule without visitor method, and the visitor\'s list walkers descend into the child the grammar\'s left recursion puts first.',
+         'Decides: every statically named gate spelling the writer can emit is in the reader table with the same arity and constructor (known gaps reported); grammar function terminals = evaluator table = OpenQASM 2 set; every semantic grammar rule has a visitor method; translators go through the QASM codec; every register-local qubit index reaches the circuit only shifted by its register\'s offset, computed by a cursor that starts at 0 and advances by each register\'s size; the writer declares each register once; the evaluator keeps the brackets of a parenthesised sub-expression and brackets every spliced argument; a custom gate definition hands each inner gate its own parameter slice; every grammar rule is referenced, every keyword literal is an OpenQASM 2 word, no keyword alternative hides inside a rule without visitor method, and the visitor\'s list walkers descend into the child the grammar\'s left recursion puts first; every attribute a gate\'s __eq__ compares is read by its QASM writer (EQQASM).',
          'Unitary agreement with Qiskit and parameter binding in nested definitions are NOT decided.'),
  'C18': ('static analysis: eq/hash consistency (HASH), override pairing (OVERRIDE), value-numbered agreement of get_unitary/get_grad/get_unitary_and_grad (TRIAD), gradient literal shapes (GRADSHAPE, SIBTEMP), order-sensitive folds (KRONFOLD, INSERTORD), adjoint-spelling agreement (ADJOINT), no angle from a quotient (ATAN), symbolic differentiation of hand-written unitaries in the sin/cos/phase polynomial ring (GRADSYM), magnitude-blind optimisers (MAGBLIND), totality of calc_params under the inherited optimize (TOTAL), unclipped inverse sine/cosine (NANDOM), unguarded division by a recovered angle\'s sine/cosine in calc_params (DEGEN)',
          'Decides: all gate classes have consistent, order-independent eq/hash; inverse methods are overridden together; the three evaluation entry points of delegating gates are the same expressions; hand-written gradient literals have one matrix per parameter with the unitary\'s shape; Kronecker folds keep the accumulator on the left; index inserts run in ascending order; matrices the pinned tree adjoins are not merely transposed or conjugated; optimize() recovers angles with a two-argument arctangent, never from a quotient; for the gates written out as matrices of sines, cosines and phases (U2, U3, CKM, CKMdg) every gradient entry equals the symbolic derivative of the unitary entry; no optimize() computes a parameter from the separate phases of several environment entries it multiplies; a class inheriting GeneralGate.optimize has a calc_params without content-dependent raise; arccos/arcsin arguments are clipped or normalised ratios and calc_params does not divide by an unguarded sine/cosine of a recovered angle.',
